@@ -1,10 +1,74 @@
 import PewDriver.Util
+import PewModel.Otsu
 open Lean
 namespace PewDriver.C15
-open PewDriver
+open PewDriver Pew.Otsu
 
-def handle (op : String) (_req : Json) : R Json := do
+def absR (q : Rat) : Rat := if q < 0 then -q else q
+
+/-- first index of the maximum by a plain left-to-right scan (independent of `argmaxFirst`) -/
+def bruteBest (l : List Rat) : Nat × Rat :=
+  match l with
+  | [] => (0, 0)
+  | a :: r =>
+    let (_, bi, bv) := r.foldl (fun (acc : Nat × Nat × Rat) v =>
+      let (k, bi, bv) := acc
+      if bv < v then (k + 1, k, v) else (k + 1, bi, bv)) (1, 0, a)
+    (bi, bv)
+
+def handle (op : String) (req : Json) : R Json := do
   match op with
+  | "c15.hist" =>
+    let hist ← getList asNat req "hist"
+    let edges ← getList asRat req "edges"
+    if edges.length ≠ hist.length + 1 then throw "edges/hist length mismatch"
+    if hist.length < 2 then throw "need at least two bins"
+    let cs := centres edges
+    let mech := critList hist cs
+    let idx := argmaxFirst mech
+    let spec := specCritList hist cs
+    let (bi, bv) := bruteBest spec
+    -- exact difference of the class means at the best cut (for the rounding allowance)
+    let h : List Rat := hist.map (fun (k : Nat) => (k : Rat))
+    let hc := List.zipWith (· * ·) h cs
+    let du := sumR (hc.take (bi + 1)) / sumR (h.take (bi + 1)) - sumR (hc.drop (bi + 1)) / sumR (h.drop (bi + 1))
+    pure (jObj [
+      ("index", jNat idx),
+      ("threshold", jRat (otsuHist hist edges)),
+      ("centres", jList jRat cs),
+      ("spec_crit", jList jRat spec),
+      ("spec_best_index", jNat bi),
+      ("spec_best", jRat bv),
+      ("spec_best_du", jRat du),
+      ("mech_is_spec", jBool (mech == spec)),
+      ("model_index_is_best", jBool (spec.getD idx 0 == bv))])
+  | "c15.data" =>
+    let data ← getList (asOpt asRat) req "data"
+    let n ← getNat req "bins"
+    let npEdges ← getList asRat req "np_edges"
+    if n < 2 then throw "need at least two bins"
+    let xs := data.filterMap id
+    if xs.isEmpty then throw "no finite data"
+    let (hist, edges) := histogram xs n
+    let (lo, hi) := histRange xs
+    -- distance of every value to the nearest exact bin edge, in units of the bin width
+    let pos := xs.map (fun x => (x - lo) / (hi - lo) * (n : Rat))
+    let margins := pos.map (fun p => absR (p - ((p + 1 / 2).floor : Rat)))
+    let minMargin := (margins.filter (fun d => d ≠ 0)).foldl min 1
+    -- a value exactly on an interior exact edge is binned like NumPy only if NumPy's edge is that value
+    let onEdgeOk := pos.all (fun p =>
+      if p = (p.floor : Rat) then
+        let k := p.floor.toNat
+        k == 0 || k == n || (npEdges.getD k 0 == edges.getD k 0)
+      else true)
+    pure (jObj [
+      ("hist", jList jNat hist),
+      ("edges", jList jRat edges),
+      ("lo", jRat lo), ("hi", jRat hi),
+      ("distinct", jBool (minL xs != maxL xs)),
+      ("threshold", jRat (otsuRemoveNan data n)),
+      ("min_margin", jRat minMargin),
+      ("on_edge_ok", jBool onEdgeOk)])
   | _ => throw s!"unknown op {op}"
 
 end PewDriver.C15
